@@ -30,6 +30,18 @@ TRUSTED_BASE = [
 
 
 # ------------------------------------------------------------------ build
+def _unser(o):
+    """observations may hold arbitrary objects when the implementation misbehaves: print them, never crash on them"""
+    return '<%s %s>' % (type(o).__name__, repr(o)[:80])
+
+
+def _safe(f):
+    try:
+        return f()
+    except Exception as e:  # noqa: BLE001
+        return {'unavailable': repr(e)[:200]}
+
+
 def sh(cmd, timeout, cwd=None):
     try:
         p = subprocess.run(cmd, shell=isinstance(cmd, str), capture_output=True, text=True, timeout=timeout, cwd=cwd)
@@ -270,9 +282,9 @@ def run_check(mod):
     os.makedirs(os.path.join(BUILD, 'replays'), exist_ok=True)
 
     def write_replay(payload):
-        h = hashlib.sha1(json.dumps(payload, sort_keys=True).encode()).hexdigest()[:10]
+        h = hashlib.sha1(json.dumps(payload, sort_keys=True, default=_unser).encode()).hexdigest()[:10]
         p = os.path.join(BUILD, 'replays', '%s-%s.json' % (prop, h))
-        json.dump(payload, open(p, 'w'), indent=1, sort_keys=True)
+        json.dump(payload, open(p, 'w'), indent=1, sort_keys=True, default=_unser)
         return p
 
     if oracle_fail:
@@ -341,7 +353,7 @@ def run_check(mod):
             'model_impl_mismatches': len(mismatches), 'oracle_failures': len(oracle_fail),
             'corpus_cases': n_corpus,
             'rule': mod.RULE, 'exhaustive': bool(gen.get('exhaustive')), 'exhaustive_scope': gen.get('scope', ''),
-            'distribution': mod.distribution(cases, obs),
+            'distribution': _safe(lambda: mod.distribution(cases, obs)),
             'samples': [{'case': strip(c), 'impl_observation': o} for c, o in list(zip(cases, obs))[n_corpus:][:3]]
                        or [{'case': strip(c), 'impl_observation': o} for c, o in list(zip(cases, obs))[:3]],
             'known_findings_seen': {k: len(v) for k, v in known_hits.items()},
@@ -350,7 +362,7 @@ def run_check(mod):
     }
     os.makedirs(os.path.join(ROOT, 'evidence'), exist_ok=True)
     evpath = os.path.join(ROOT, 'evidence', '%s.json' % prop)
-    json.dump(ev, open(evpath, 'w'), indent=1, sort_keys=True)
+    json.dump(ev, open(evpath, 'w'), indent=1, sort_keys=True, default=_unser)
     validate_evidence(evpath)
 
     for l in known_lines:
@@ -413,7 +425,7 @@ def replay(mod, path):
     o = mod.run_impl(c)
     f = mod.oracle(c, o)
     print('case:', json.dumps(c))
-    print('implementation observation:', json.dumps(o))
+    print('implementation observation:', json.dumps(o, default=_unser))
     if f is None:
         print('property oracle: holds on this case')
         return 0
